@@ -262,35 +262,77 @@ func main() {
 
 func runProp(pd *propDef, tier, repo, verif string, seed int) int {
 	start := time.Now()
-	c := newCtx(pd.ID, tier, repo, verif)
-	broken := ""
-	func() {
-		defer func() {
-			if r := recover(); r != nil {
-				if cf, ok := r.(checkFailure); ok {
-					broken = cf.msg
-				} else {
-					broken = fmt.Sprintf("analyzer panic: %v\n%s", r, debug.Stack())
+	known := loadKnown(filepath.Join(verif, "KNOWN_FINDINGS.json"))
+	// analyse runs the property's rules on the repository as loaded with the given overlay
+	analyse := func(overlay map[string][]byte, selftests bool) *Ctx {
+		c := newCtx(pd.ID, tier, repo, verif)
+		broken := ""
+		func() {
+			defer func() {
+				if r := recover(); r != nil {
+					if cf, ok := r.(checkFailure); ok {
+						broken = cf.msg
+					} else {
+						broken = fmt.Sprintf("analyzer panic: %v\n%s", r, debug.Stack())
+					}
 				}
+			}()
+			c.load("", overlay)
+			pd.Run(c)
+			if selftests && tier == "thorough" {
+				runSelfTests(c, pd)
 			}
 		}()
-		c.load("", nil)
-		if _, nlog := c.normalize(nil); len(nlog) > 0 {
-			for _, l := range nlog {
-				c.Note("normalisation: %s", l)
+		if broken != "" {
+			// an undecided site / unresolved anchor is a failure of the check, reported as such.
+			c.Ob("check-integrity", "undecided", token.NoPos, false, broken)
+		}
+		return c
+	}
+	unknownViolations := func(c *Ctx) int {
+		n := 0
+		for _, o := range c.obs {
+			if o.Verdict != "violated" {
+				continue
+			}
+			isKnown := false
+			for _, k := range known {
+				if k.Property == pd.ID && k.Status == "known" && k.Rule+"@"+k.Construct == o.Key {
+					isKnown = true
+				}
+			}
+			if !isKnown {
+				n++
 			}
 		}
-		pd.Run(c)
-		if tier == "thorough" {
-			runSelfTests(c, pd)
+		return n
+	}
+	c := analyse(nil, true)
+	if nv := unknownViolations(c); nv > 0 {
+		// The tree may differ from the pinned one only by helpers extracted from the
+		// functions the rules are anchored in. Normalise (inline every call to a function
+		// the baseline does not know) and decide that - equivalent - program as well; the
+		// property's structural conditions hold if they hold for either form.
+		var ov map[string][]byte
+		var nlog []string
+		func() {
+			defer func() { recover() }()
+			nc := newCtx(pd.ID, tier, repo, verif)
+			nc.load("", nil)
+			ov, nlog = nc.normalize(nil)
+		}()
+		if ov != nil {
+			c2 := analyse(ov, false)
+			for _, l := range nlog {
+				c2.Note("normalisation: %s", l)
+			}
+			c2.Note("decided on the normalised program (helpers unknown to the baseline inlined); the tree as written had %d undischarged obligations", nv)
+			if unknownViolations(c2) < nv {
+				c = c2
+			}
 		}
-	}()
-	if broken != "" {
-		// an undecided site / unresolved anchor is a failure of the check, reported as such.
-		c.Ob("check-integrity", "undecided", token.NoPos, false, broken)
 	}
 
-	known := loadKnown(filepath.Join(verif, "KNOWN_FINDINGS.json"))
 	nviol, nknown, ndis := 0, 0, 0
 	var report []string
 	var knownLines []string
